@@ -76,6 +76,9 @@ pub struct TapLog {
     pub params_patched: u64,
     pub params_patch_rejected: u64,
     pub injected: u64,
+    /// bits to set in the first header byte of the next packet sealed by (inc, space) — the
+    /// reserved bits, which header protection hides and the AEAD authenticates
+    pub header_or: BTreeMap<(u32, Space), u8>,
     /// sessions created: (node, inc, side)
     pub sessions: Vec<(u32, u32, bool)>,
 }
@@ -142,6 +145,11 @@ impl PacketKey for TapPacketKey {
             let end = buf.len() - tag;
             let mut rewritten = false;
             if info.owner != NO_INC {
+                if let Some(mask) = t.header_or.remove(&(info.owner, info.space)) {
+                    buf[0] |= mask;
+                    rewritten = true;
+                    t.injected += 1;
+                }
                 let cap = end - header_len;
                 if let Some(q) = t.inject.get_mut(&(info.owner, info.space)) {
                     if let Some((f, overlay)) = q.front().cloned() {
